@@ -33,6 +33,10 @@ pub struct Case {
     pub failing: Vec<(u8, Fail)>,
     /// pad saved lines with whitespace
     pub pad: bool,
+    /// odd: the copy runs the original's continuation without its unit definitions instead
+    /// of `alt` (both sessions then show values of the same units, one of them has names)
+    #[serde(default)]
+    pub alt_mode: u8,
 }
 
 fn case_strategy() -> impl Strategy<Value = Case> {
@@ -43,8 +47,9 @@ fn case_strategy() -> impl Strategy<Value = Case> {
         proptest::collection::vec(ins_strategy(), 1..6),
         proptest::collection::vec((any::<u8>(), fail_strategy()), 0..3),
         any::<bool>(),
+        0u8..2,
     )
-        .prop_map(|(ins, split, clone_at, alt, failing, pad)| Case { ins, split, clone_at, alt, failing, pad })
+        .prop_map(|(ins, split, clone_at, alt, failing, pad, alt_mode)| Case { ins, split, clone_at, alt, failing, pad, alt_mode })
 }
 
 fn outcome_key(o: &Outcome) -> String {
@@ -229,7 +234,12 @@ fn check(c: &Case, st: &mut Stats) -> CheckResult {
         let mut env_rest = env_p.clone();
         let rest: Vec<String> = c.ins[k..].iter().map(|i| render_ins(i, &mut env_rest)).collect();
         let mut env_alt = env_p.clone();
-        let alt: Vec<String> = c.alt.iter().map(|i| render_ins(i, &mut env_alt)).collect();
+        let alt_ins: Vec<Ins> = if c.alt_mode % 2 == 1 {
+            c.ins[k..].iter().filter(|i| !matches!(i, Ins::ProductUnit { .. } | Ins::Unit { .. } | Ins::BaseUnit)).cloned().collect()
+        } else {
+            c.alt.clone()
+        };
+        let alt: Vec<String> = alt_ins.iter().map(|i| render_ins(i, &mut env_alt)).collect();
         let (mut orig, prefix_run) = run_inputs(&prefix, "prefix").map_err(|f| Failure::new("harness", f.what))?;
         let mut copy = orig.clone();
         // interleave the two continuations
@@ -305,7 +315,7 @@ fn run(cfg: &Cfg) -> Report {
         cfg,
         "proptest histories of 3-21 successful inputs (typed definitions, redefinitions/shadowing of variables and functions, generic functions, function values through map, units, dimensions, structs, imports, expressions, prints, ans/_) with a random partition into chunks, a random clone point with an alternative continuation, and 0-2 failing lines for the save filter. Oracle: (1) line-by-line vs (2) chunked and all-joined: same concatenated print output, same last result, same definition digest (function signatures, units, dimensions, raw values of all variables); (3) CommandRunner + `save`: the file holds exactly the trimmed successful inputs in order and replaying it in a fresh session reproduces prints and digest; (4) a cloned session continued differently (interleaved with the original) equals a never-cloned session with the same inputs, and so does the original. non-trivial = contains a redefinition or ans/_, is split into >= 2 chunks and defines >= 3 names; distinct = rendered history",
     );
-    let cases = cfg.tier.pick(80u32, 3000u32);
+    let cases = cfg.tier.pick(400u32, 5000u32);
     rep.absorb(run_proptest(
         cfg,
         "histories",
